@@ -181,6 +181,48 @@ fn attack(ctx: &Ctx, b: &Bundle) {
     for (field, div, what) in sibling_difference_attack(b, &cs) {
         found.push((field, div, what));
     }
+    // one blinding answered under two challenges inside one proof: (s - s') / (c - c') for two DIFFERENT fields and two
+    // different recomputable challenges must not be a secret (exact division). Bounded to proofs of moderate size.
+    {
+        let big: Vec<&(String, Integer)> = ls.iter().filter(|(p, v)| v.significant_bits() >= 128 && !p.ends_with("/challenge") && !p.ends_with("/C")).collect();
+        let mut chv: Vec<&(String, Integer)> = cs_distinct.clone();
+        chv.truncate(40);
+        if big.len() <= 260 && chv.len() >= 2 {
+            let exact: std::collections::HashMap<&Integer, &String> = secrets.iter().filter(|(_, x)| x.significant_bits() >= 16).map(|(k, x)| (x, k)).collect();
+            let mut dcs: Vec<(Integer, String)> = vec![];
+            for a in 0..chv.len() {
+                for b2 in a + 1..chv.len() {
+                    let d = Integer::from(&chv[a].1 - &chv[b2].1);
+                    if d != 0 {
+                        let la: String = chv[a].0.split(':').next().unwrap().chars().map(|ch| if ch.is_ascii_digit() { 'i' } else { ch }).collect();
+                        let lb: String = chv[b2].0.split(':').next().unwrap().chars().map(|ch| if ch.is_ascii_digit() { 'i' } else { ch }).collect();
+                        dcs.push((d, format!("{la}-{lb}")));
+                    }
+                }
+            }
+            let mut tests = 0u64;
+            for i in 0..big.len() {
+                for k in i + 1..big.len() {
+                    let ds = Integer::from(&big[i].1 - &big[k].1);
+                    if ds == 0 {
+                        continue;
+                    }
+                    for (dc, lbl) in &dcs {
+                        tests += 1;
+                        if ds.is_divisible(dc) {
+                            let q = Integer::from(&ds / dc).abs();
+                            if let Some(kind) = exact.get(&q) {
+                                found.push((format!("{}-{}", path_class(&big[i].0), path_class(&big[k].0)), format!("two-challenges[{}]", lbl), (*kind).clone()));
+                            }
+                        }
+                    }
+                }
+            }
+            ctx.count("two_challenge_extraction_tests", tests);
+        } else {
+            ctx.count("two_challenge_extraction_skipped(proof too large)", 1);
+        }
+    }
     found.sort();
     found.dedup();
     for (resp, div, kind) in &found {
